@@ -12,7 +12,13 @@ import (
 	"math/big"
 )
 
-type Theory struct{ bv bool }
+// named32: int theory in which the wrapping uint32 operations are applications of the functions
+// u32.add / u32.sub / u32.mul / u32.rolK (defined by axioms in the prelude) instead of inline
+// arithmetic, so that a code term and a spec term over equal operands are equal by congruence.
+type Theory struct {
+	bv      bool
+	named32 bool
+}
 
 func (th Theory) Addr() Sort {
 	if th.bv {
@@ -351,6 +357,18 @@ func (th Theory) BinOp(op token.Token, x, y Expr, t, ty types.Type, fresh func(s
 	// ---- int theory ----
 	yc, yIsConst := litInt(y)
 	_, xIsConst := litInt(x)
+	if th.named32 && w == 32 && !signed {
+		switch op {
+		case token.ADD:
+			return mk("u32.add", SInt, x, y), nil, nil
+		case token.SUB:
+			return mk("u32.sub", SInt, x, y), nil, nil
+		case token.MUL:
+			if yIsConst || xIsConst {
+				return mk("u32.mul", SInt, x, y), nil, nil
+			}
+		}
+	}
 	switch op {
 	case token.ADD:
 		return th.wrap(IAdd(x, y), t, true), nil, nil
@@ -424,7 +442,7 @@ func (th Theory) BinOp(op token.Token, x, y Expr, t, ty types.Type, fresh func(s
 		if xIsConst {
 			return th.BinOp(op, y, x, t, ty, fresh)
 		}
-		r := fresh("bitand", SInt)
+		r := mk("bit.and", SInt, x, y)
 		// sound approximation for non-negative operands: 0 <= r <= min(x,y)
 		side = append(side, Implies(And(IGe(x, IntLit(0)), IGe(y, IntLit(0))), And(IGe(r, IntLit(0)), ILe(r, x), ILe(r, y))))
 		side = append(side, th.Range(r, t))
@@ -440,12 +458,17 @@ func (th Theory) BinOp(op token.Token, x, y Expr, t, ty types.Type, fresh func(s
 				return ISub(x, fld), nil, nil
 			}
 		}
-		r := fresh("bitandnot", SInt)
+		r := mk("bit.andnot", SInt, x, y)
 		side = append(side, Implies(And(IGe(x, IntLit(0)), IGe(y, IntLit(0))), And(IGe(r, IntLit(0)), ILe(r, x))))
 		side = append(side, th.Range(r, t))
 		return r, side, nil
 	case token.OR, token.XOR:
-		r := fresh("bitor", SInt)
+		var r Expr
+		if op == token.OR {
+			r = mk("bit.or", SInt, x, y)
+		} else {
+			r = mk("bit.xor", SInt, x, y)
+		}
 		side = append(side, th.Range(r, t))
 		if op == token.OR {
 			// disjoint-bits lemma: low k bits only in x, none of them in y  =>  x|y == x+y
